@@ -61,7 +61,13 @@ impl Effect for Distortion {
 		let num_frames = input.len();
 		for (i, frame) in input.iter_mut().enumerate() {
 			let time_in_chunk = (i + 1) as f64 / num_frames as f64;
-			let drive = self.drive.interpolated_value(time_in_chunk).as_amplitude();
+			// -60 dB or less has amplitude 0 and `output /= drive` below would be 0/0;
+			// clip(x * d) / d tends to x as d -> 0, so the drive is floored at -60 dB
+			let drive = self
+				.drive
+				.interpolated_value(time_in_chunk)
+				.as_amplitude()
+				.max(0.001);
 			let mix = self.mix.interpolated_value(time_in_chunk).0.clamp(0.0, 1.0);
 
 			let mut output = *frame * drive;
